@@ -39,6 +39,7 @@ type job struct {
 type jobList struct {
 	jobs    []job
 	lateCtr uint64
+	valCtr  uint64
 }
 
 func (j *jobList) addFlow(sc FlowScenario) {
